@@ -352,11 +352,11 @@ def legal(meta, ops, upto=None, two_monitors=False):
             elif k in ('obj', 'seq', 'tr'):
                 if op[1] in m.objs or op[1] in m.seqs:
                     return None
-            elif k in ('mvobj', 'cpobj'):
+            elif k in ('mvobj', 'cpobj', 'cpobjc'):
                 if op[1] in m.objs or op[2] not in m.objs:
                     return None
                 kind = m.objs[op[2]].kind
-                if k == 'cpobj' and kind != 'P':
+                if k in ('cpobj', 'cpobjc') and kind != 'P':
                     return None
                 if kind == 'N':
                     return None
